@@ -21,6 +21,8 @@ def build_corpus(chk, tier, corpus_file, exhaustive_len=None, sizes=None):
                 corpus.append(("corpus", bytes.fromhex(json.loads(line)["hex"]), None))
     for prog in progs.enumerate_typed(L):
         corpus.append(("exhaustive", asm.assemble(prog), None))
+    for prog in progs.alias_programs():
+        corpus.append(("alias", asm.assemble(prog), None))
     for _ in range(nrand):
         corpus.append(("random", asm.assemble(progs.random_typed(rng)), None))
     for _ in range(nnat):
